@@ -202,38 +202,3 @@
                               :pattern ((select hpn j))))
          (= (hpnames hp hpn k) (aliasnames a k)))
      :pattern ((hpnames hp hpn k) (aliasnames a k)))))
-
-; ---------------------------------------------------------------------------------------------
-; Parse trees of `predicateexpression` / `simplepredicate` (prolog.g4) and the body the visitor must build (C06, C12)
-; ---------------------------------------------------------------------------------------------
-(declare-datatypes ((SP 0)) (((SPTrue) (SPFail) (SPCut) (SPTerm (sptp Int)))))   ; TRUE | FAIL | CUT | termpredicate
-(declare-fun tpterm (Int) TA)                ; the term AST visitTerm builds for the term of a termpredicate node
-(declare-fun nameisatom (TA) Bool)           ; the functor name of a parsed compound term is an Atom object
-(declare-fun predid (TA) Int)                ; identity of the goal a term stands for (BPred)
-(declare-fun cutlbl (TA) Int)
-; an atom used as a goal is the functor of arity 0
-(define-fun functorof ((t TA)) TA (ite ((_ is TAAtom) t) (TAFun (taval t) tanil) t))
-; how compile_body reads Predicate(t): by the functor NAME alone, '$CUTIF' is the compiler's internal break marker
-(define-fun predof ((t TA)) Body (ite (= (tafname t) "$CUTIF") (BCutIf (cutlbl t)) (BPred (predid t))))
-; what the property demands: a source goal is always an ordinary goal (never the internal marker), whatever its arity
-(define-fun spbody ((s SP)) Body
-  (ite ((_ is SPTrue) s) BTrue (ite ((_ is SPFail) s) BFail (ite ((_ is SPCut) s) BCut
-       (BPred (predid (functorof (tpterm (sptp s)))))))))
-(declare-datatypes ((PE 0)) ((
-  (PESimple (pesp SP))                       ; simplepredicate
-  (PENeg (pen PE))                           ; op='\+' predicateexpression
-  (PEBin (peop String) (pel PE) (per PE))    ; predicateexpression op=(','|'->'|';') predicateexpression
-  (PEParen (pep PE)))))                      ; '(' predicateexpression ')'
-; the grammar only has the three binary operators (A-EXT-ANTLR)
-(define-fun-rec wfpe ((p PE)) Bool
-  (ite ((_ is PENeg) p) (wfpe (pen p))
-  (ite ((_ is PEParen) p) (wfpe (pep p))
-  (ite ((_ is PEBin) p) (and (or (= (peop p) ",") (= (peop p) "->") (= (peop p) ";")) (wfpe (pel p)) (wfpe (per p))) true))))
-; ',' is conjunction, '->' if-then, ';' disjunction, '\+' negation, parentheses are transparent
-(define-fun-rec pebody ((p PE)) Body
-  (ite ((_ is PESimple) p) (spbody (pesp p))
-  (ite ((_ is PENeg) p) (BNeg (pebody (pen p)))
-  (ite ((_ is PEParen) p) (pebody (pep p))
-  (ite (= (peop p) ",") (BConj (pebody (pel p)) (pebody (per p)))
-  (ite (= (peop p) "->") (BIfThen (pebody (pel p)) (pebody (per p)))
-       (BDisj (pebody (pel p)) (pebody (per p)))))))))
